@@ -12,6 +12,7 @@ import m_regions
 import m_conc
 import m_copyw
 import m_amap
+import m_own
 
 
 def c09(ctx):
@@ -44,6 +45,7 @@ PROPS = {
     "C09": c09,
     "C10": m_regions.run,
     "C11": m_amap.run,
+    "C12": m_own.run,
     "C13": m_streams.run,
     "C14": m_guest.run_c14,
     "C19": m_addr.run,
